@@ -135,6 +135,32 @@ func TestC07(t *testing.T) {
 			e = xast.Call(fn, S, U)
 			nt = nt || multibyte(u)
 		}
+		if !strings.HasSuffix(fn, "0") && rapid.IntRange(0, 3).Draw(t, "mixedContent") == 0 {
+			// the string arrives as the string-value of an element with mixed content: s cut into text pieces
+			// around a child element and a comment (<r>s1<b>s2</b><!--c-->s3</r>), passed as the node-set /r
+			rs := []rune(s)
+			i := rapid.IntRange(0, len(rs)).Draw(t, "cut1")
+			j := rapid.IntRange(i, len(rs)).Draw(t, "cut2")
+			ev := []xmodel.Event{{K: "S", Local: "r"}}
+			if i > 0 {
+				ev = append(ev, xmodel.Event{K: "T", Value: string(rs[:i])})
+			}
+			ev = append(ev, xmodel.Event{K: "S", Local: "b"})
+			if j > i {
+				ev = append(ev, xmodel.Event{K: "T", Value: string(rs[i:j])})
+			}
+			ev = append(ev, xmodel.Event{K: "E"}, xmodel.Event{K: "C", Value: "c"})
+			if j < len(rs) {
+				ev = append(ev, xmodel.Event{K: "T", Value: string(rs[j:])})
+			}
+			c.Events = append(ev, xmodel.Event{K: "E"})
+			for k, arg := range e.A {
+				if arg == S {
+					e.A[k] = xast.Path(true, xast.S("child", xast.Name("", "r")))
+				}
+			}
+			st.Class("string-value of mixed content as argument")
+		}
 		c.Expr = e
 		c.Text = xast.Render(e, xast.RapidChooser{T: t}, xast.Style{WS: rapid.Bool().Draw(t, "ws")})
 		st.Eval(1)
